@@ -171,4 +171,66 @@ theorem getItem_none (pos rest : Bytes) (h : strListGetItem pos = (none, rest)) 
         simp [hall.1] at hhead
   · simp [hemp] at h
 
+
+/-! ### after the fixes 43aac5c / 95b4622: every `isspace` byte is skipped between items -/
+
+theorem space_isListLead (b : UInt8) (h : isSpace b = true) : isListLead b = true := by
+  have := forall_octet (fun b => !(isSpace b) || isListLead b) (by decide +kernel) b
+  simp_all
+
+/-- no list member is blank-but-not-skipped any more -/
+theorem blankOk_all (v : Bytes) : BlankOk v := by
+  intro e _ hs
+  rw [strip_eq_nil_iff] at hs
+  simp only [List.all_eq_true] at hs ⊢
+  intro c hc; exact space_isListLead c (hs c hc)
+
+/-- `strListGetItem` now returns 0 only at the very end of the string: the raw item is empty (`pos == item`) -/
+theorem getItem_none_raw (pos rest : Bytes) (h : strListGetItem pos = (none, rest)) :
+    (scanItem (pos.dropWhile isListLead) false).1 = [] := by
+  unfold strListGetItem at h
+  simp only [rtrimSplit] at h
+  have hhead := List.head?_dropWhile_not isListLead pos
+  generalize hs1 : pos.dropWhile isListLead = s1 at h hhead ⊢
+  have happ := scanItem_append s1 false
+  generalize hraw : (scanItem s1 false).1 = raw at h happ ⊢
+  generalize hrst : (scanItem s1 false).2 = rst at h happ
+  by_cases hemp : (rtrim raw).isEmpty = true
+  · obtain ⟨t, hrawt, ht⟩ := rtrim_decomp raw
+    have h0 : rtrim raw = [] := by simpa using hemp
+    rw [h0, List.nil_append] at hrawt
+    cases hr : raw with
+    | nil => rfl
+    | cons a b =>
+      exfalso
+      rw [← happ, hr] at hhead
+      simp only [List.cons_append, List.head?_cons] at hhead
+      have hsp : isSpace a = true := by
+        rw [hr] at hrawt; rw [← hrawt] at ht
+        simp only [List.all_cons, Bool.and_eq_true] at ht; exact ht.1
+      rw [space_isListLead a hsp] at hhead
+      exact absurd hhead (by simp)
+  · simp [hemp] at h
+
+theorem loopEndsBlank_false (relaxed : Bool) : ∀ (fuel : Nat) (st : ClState) (pos : Bytes),
+    loopEndsBlank relaxed fuel st pos = false := by
+  intro fuel
+  induction fuel with
+  | zero => intro st pos; rfl
+  | succ fuel ih =>
+    intro st pos
+    unfold loopEndsBlank
+    cases hgi : strListGetItem pos with
+    | mk r rest =>
+      cases r with
+      | none => simp [getItem_none_raw pos rest hgi]
+      | some it =>
+        simp only []
+        cases checkValue relaxed st it.item it.after with
+        | mk st' ok =>
+          simp only []
+          split
+          · rfl
+          · exact ih st' rest
+
 end SquidModel.Header
